@@ -1,7 +1,8 @@
 """registry entry of C01 (Lean files carrying the obligations, correspondence script, labels)"""
 from reg._common import COMMON_ASSUME
 
-ENTRY = {'lean_files': ['Tables/C01.lean', 'Props/C01.lean', 'Props/C01Rounding.lean', 'Lemmas/RoundingTables.lean'],
+ENTRY = {'extractors': ['translate_py.py', 'translate_f90.py'],
+    'lean_files': ['Tables/SrcPyKernels.lean', 'Tables/SrcF90Kernels.lean', 'Tables/C01.lean', 'Props/C01.lean', 'Props/C01Rounding.lean', 'Lemmas/RoundingTables.lean'],
  'lemma_files': ['Lemmas/Shift.lean',
                  'Lemmas/Bridge.lean',
                  'Lemmas/VS.lean',
